@@ -30,8 +30,19 @@ def _run(cmd: list[str], timeout: int = 600) -> dict | None:
     return {"reproduced": False, "driver_error": (p.stderr or p.stdout)[-800:]}
 
 
+_cache: dict[str, dict] = {}
+
+
 def find_witness(prop: str, violation: dict) -> dict | None:
     """Bounded search for a concrete failing input on the real code.  None / reproduced=False means none found."""
+    if prop in _cache:
+        return _cache[prop]
+    r = _find_witness(prop, violation)
+    _cache[prop] = r
+    return r
+
+
+def _find_witness(prop: str, violation: dict) -> dict | None:
     tried = []
     for cmd in DRIVERS.get(prop, []):
         r = _run(cmd)
